@@ -79,6 +79,14 @@ Proof.
     + eapply if_ub_ok_ne; exact H.
 Qed.
 
+Lemma arr_insert_alloc_c14 a idx v :
+  (arr_insertdata_at false a idx v = arr_insertdata_at true a idx v \/
+   (arr_insertdata_at false a idx v = Err ARES_ENOMEM /\
+    arr_set_size false a (a_cnt a + 1) = Err ARES_ENOMEM /\
+    exists a', arr_set_size true a (a_cnt a + 1) = Ok a' /\ alloc_cnt a < alloc_cnt a'))
+  /\ arr_insertdata_at true a idx v <> Err ARES_ENOMEM.
+Proof. split; [apply arr_insert_alloc_atomic | apply arr_insert_enomem_only_from_allocator]. Qed.
+
 (* non-vacuity: a full array of ARES__ARRAY_MIN members needs the allocator for the next
    insert, and refuses cleanly *)
 Example arr_insert_alloc_example :
